@@ -139,6 +139,23 @@ Theorem C15_rejected_changes_nothing :
 Proof. exact rejected_changes_nothing. Qed.
 Print Assumptions C15_rejected_changes_nothing.
 
+(** Genesis export / import round trip (at any point of a history): the identity on the model's
+    state, so every theorem of this file holds ACROSS it; in particular whoever was not the admin
+    before (the creator after a hand-over, anybody for a renounced denom) is still refused after. *)
+Theorem C15_reimport_is_identity : forall blocked s, deliver blocked s Reimport = (s, true).
+Proof. exact reimport_identity. Qed.
+Print Assumptions C15_reimport_is_identity.
+
+Theorem C15_not_admin_rejected_across_reimport :
+  forall blocked s sender d, admins s d <> Some sender ->
+  let s' := fst (deliver blocked s Reimport) in
+  (forall dv amt t, step blocked s' (Mint sender d dv amt t) = None) /\
+  (forall dv amt t, step blocked s' (Burn sender d dv amt t) = None) /\
+  (forall n nv, step blocked s' (ChangeAdmin sender d n nv) = None) /\
+  (forall mv, step blocked s' (SetMeta sender d mv) = None).
+Proof. exact reimport_keeps_authority. Qed.
+Print Assumptions C15_not_admin_rejected_across_reimport.
+
 (** Transactions of several messages: all-or-nothing … *)
 Theorem C15_rejected_tx_changes_nothing :
   forall blocked s tx, snd (deliver_tx blocked s tx) = false -> fst (deliver_tx blocked s tx) = s.
